@@ -222,6 +222,8 @@ func (r *Request) AddParam(key, val string) *Request {
 
 // SetParam sets a single query parameter and value in the Request, overriding any previously set value.
 func (r *Request) SetParam(key, val string) *Request {
+	// Set alone replaces the first of several values added for the key
+	r.params.Del(key)
 	r.params.Set(key, val)
 	return r
 }
@@ -468,6 +470,7 @@ func (r *Request) AddFormData(key, val string) *Request {
 
 // SetFormData sets a single form field and value, overriding any previously set value.
 func (r *Request) SetFormData(key, val string) *Request {
+	r.formData.Del(key)
 	r.formData.Set(key, val)
 	r.resetBody(formBody)
 	return r
@@ -718,6 +721,7 @@ func (p *QueryParam) AddParams(r map[string][]string) {
 // SetParams sets multiple parameters from a map, overriding previously set values.
 func (p *QueryParam) SetParams(r map[string]string) {
 	for k, v := range r {
+		p.Del(k)
 		p.Set(k, v)
 	}
 }
@@ -868,6 +872,7 @@ func (f *FormData) AddWithMap(m map[string][]string) {
 // SetWithMap sets multiple form fields from a map, overriding previously set values.
 func (f *FormData) SetWithMap(m map[string]string) {
 	for k, v := range m {
+		f.Del(k)
 		f.Set(k, v)
 	}
 }
